@@ -3,6 +3,7 @@
 package props
 
 import (
+	"math"
 	"bytes"
 	"encoding/json"
 	"fmt"
@@ -267,7 +268,9 @@ func (p *Pred) Text() string {
 var (
 	numValues = map[string]float64{"200": 200, "404": 404, "500": 500, "0": 0, "-3": -3, "1.5": 1.5, "1e3": 1000, "42": 42, "3": 3, "007": 7, "+5": 5,
 		// zero-padded decimals are decimals (not octal); integers beyond 2^53 compare as the nearest float64
-		"0100": 100, "010": 10, "0644": 644, "1700000000000000000": 1.7e18, "9007199254740993": 9007199254740992, "-9223372036854775808": -9223372036854775808}
+		"0100": 100, "010": 10, "0644": 644, "1700000000000000000": 1.7e18, "9007199254740993": 9007199254740992, "-9223372036854775808": -9223372036854775808,
+		// IEEE specials: every ordered comparison with NaN is false, != is true
+		"NaN": math.NaN(), "nan": math.NaN(), "+Inf": math.Inf(1), "-Inf": math.Inf(-1)}
 	numBad    = []string{"abc", "12abc", "1.2.3", "--1", "ten", "info", "warn", "error", "ERROR", "", "debug", "true", "false", "0x1f", "0b101", "0o17"} // true/false: JSON booleans exposed by | json
 	durValues = map[string]time.Duration{"150ms": 150 * time.Millisecond, "2s": 2 * time.Second, "1m30s": 90 * time.Second, "1h": time.Hour, "0s": 0, "1.5s": 1500 * time.Millisecond, "250us": 250 * time.Microsecond, "3m": 3 * time.Minute}
 	durBad    = []string{"bad", "5", "1 s", "s", "1d2", "info", "warn", "error", "ERROR", "", "debug"}
@@ -684,6 +687,31 @@ func stLabelTemplates(dsts []string, ts []Tmpl) Stage {
 			}
 			e.L[dsts[i]] = vals[i]
 		}
+		return true
+	})
+}
+
+// stRenameThenTemplate: one stage with renames written first and a template after them. Whether a
+// stage is read in written order or renames-first, the template then sees the renamed labels.
+func stRenameThenTemplate(pairs [][2]string, dst string, t Tmpl) Stage {
+	var parts []string
+	for _, p := range pairs {
+		parts = append(parts, p[0]+"="+p[1])
+	}
+	parts = append(parts, dst+"="+quoteLogQL(t.Text))
+	return stateless("label_format-mixed", "| label_format "+strings.Join(parts, ", "), func(e *Ent) bool {
+		for _, p := range pairs {
+			if v, ok := e.L[p[1]]; ok {
+				e.L[p[0]] = v
+				delete(e.L, p[1])
+			}
+		}
+		v, ok := t.Eval(e)
+		if !ok {
+			e.flag()
+			return true
+		}
+		e.L[dst] = v
 		return true
 	})
 }
